@@ -27,11 +27,25 @@ variable {T S R : Type}
     test guards the `python` branch with exactly the five literal openers, the target loaders
     are json / yaml.safe_load / toml / literal_eval, the flag defaults are python / json / 2,
     and `glom_cli`, `main`, `mw_handle_target`, the order of `mw_get_target`'s steps have the
-    modelled shape. -/
+    modelled shape; the `except` around `load_func(target_text)` names, for every target format,
+    `Exception` or a class above every class the PROBE saw that format's loader raise (`catchWF`);
+    every read of text in cli.py (spec file, target file, standard input — `_read_stdin`) sits
+    under a handler naming OSError and UnicodeError (or `Exception`) that raises a UsageError; the
+    probe is not vacuous (≥ 2 classes per loader, all `Exception` subclasses). -/
 theorem c19_facts_wf :
     WF genFacts = true ∧
     shapeWF Generated.cliShape Generated.cliMainShape Generated.cliMwSteps Generated.cliEmptyTargetFirst
-      Generated.cliLoadCatch Generated.cliMiddlewares = true := by decide +kernel
+      Generated.cliMiddlewares = true ∧
+    probeWF Generated.cliLoaderRaises Generated.cliReadSites = true := by decide +kernel
+
+/-- for the code as it is every handler around a loader names `Exception`: of `LoadErrOk` only
+    "a loader raises `Exception` subclasses" is then needed (`loadErrOk_of_exception`) -/
+theorem c19_handlers_name_exception :
+    ∀ fmt k, (fmt, k) ∈ genFacts.targetLoaders → (catchOf genFacts fmt).contains "Exception" = true := by
+  have h : genFacts.targetLoaders.all (fun l => (catchOf genFacts l.1).contains "Exception") = true := by
+    decide +kernel
+  intro fmt k hm
+  exact (List.all_eq_true.mp h) (fmt, k) hm
 
 /-- **Default-format specs never execute** (facts, decided on the extracted graph): without the
     `spec_format == 'python-full'` edges no dangerous callable (eval, exec, compile,
@@ -56,7 +70,7 @@ theorem c19_model_no_exec (F : Facts) (hwf : WF F = true) (X : Ext T S R) (a : A
   have hf := fmt_default wf a hfmt
   unfold cliMain getSpec parseSpec
   simp only [hf, wf.specBranches, wf.reprBranches]
-  simp [getTargetText, handleTarget, glomCli, runWith]
+  simp [getTargetText, readStdin, readFail, caughtBy, handleTarget, liftLoad, glomCli, runWith]
 
 /-! ### every delivery of the same spec and target prints the same thing -/
 
@@ -82,11 +96,11 @@ theorem c19_output (F : Facts) (hwf : WF F = true) (X : Ext T S R) (hr : ReprOk 
     simp [Request.argv]
   unfold cliMain
   rw [getSpec_ref wf X hr q.argv hfmt _ hst, hspec]
-  obtain ⟨o, ho, hor⟩ := getTargetText_text X q.argv (q.world junk tty) _ htt
+  obtain ⟨o, ho, hor⟩ := getTargetText_text F X q.argv (q.world junk tty) _ htt
   rcases hor with rfl | ⟨he, _⟩
   · simp only [liftExc, ho]
     have hk' : refLoaderKind (q.argv.targetFormat.getD "json") = some k := by simpa [Request.argv] using hk
-    rw [handleTarget_ref wf X q.argv _ ht k hk', hload]
+    rw [(handleTarget_ref wf X q.argv _ ht k hk').1, hload]
     simp only [liftLoad, runWith]
     rw [glomCli_render X t s r _ _ hlib, wf.indentDefault]
     have : q.argv.indent = q.indent ∧ q.argv.scalar = q.scalar := by simp [Request.argv]
@@ -110,18 +124,20 @@ theorem c19_glomerror_exit1 (F : Facts) (hwf : WF F = true) (X : Ext T S R) (hr 
     simp [Request.argv]
   unfold cliMain
   rw [getSpec_ref wf X hr q.argv hfmt _ hst, hspec]
-  obtain ⟨o, ho, hor⟩ := getTargetText_text X q.argv (q.world junk tty) _ htt
+  obtain ⟨o, ho, hor⟩ := getTargetText_text F X q.argv (q.world junk tty) _ htt
   rcases hor with rfl | ⟨he, _⟩
   · simp only [liftExc, ho]
     have hk' : refLoaderKind (q.argv.targetFormat.getD "json") = some k := by simpa [Request.argv] using hk
-    rw [handleTarget_ref wf X q.argv _ ht k hk', hload]
+    rw [(handleTarget_ref wf X q.argv _ ht k hk').1, hload]
     simp only [liftLoad, runWith, glomCli, hlib]
   · rw [ht] at he; cases he
 
 /-- **Malformed target → usage error.**  Same deliveries; if the loader rejects the target text
-    with an exception of class `c`, `main` ends in a UsageError (never in a result). -/
+    with an exception of class `c` — ANY class a loader raises on text (`LoadErrOk`: an
+    `Exception` subclass; where the handler does not name `Exception`, one the probe saw) —
+    `main` ends in a UsageError (never in a result, never in another exception). -/
 theorem c19_bad_target_usage_error (F : Facts) (hwf : WF F = true) (X : Ext T S R) (hr : ReprOk X)
-    (q : Request) (junk : String) (tty : Bool)
+    (hl : LoadErrOk F X) (q : Request) (junk : String) (tty : Bool)
     (hs : q.specText.isEmpty = false) (ht : q.targetText.isEmpty = false)
     (hdash : q.targetText ≠ "-") (hfiles : q.FilesOk X)
     (k : String) (hk : refLoaderKind (q.targetFormat.getD "json") = some k)
@@ -134,32 +150,37 @@ theorem c19_bad_target_usage_error (F : Facts) (hwf : WF F = true) (X : Ext T S 
     simp [Request.argv]
   unfold cliMain
   rw [getSpec_ref wf X hr q.argv hfmt _ hst, hspec]
-  obtain ⟨o, ho, hor⟩ := getTargetText_text X q.argv (q.world junk tty) _ htt
+  obtain ⟨o, ho, hor⟩ := getTargetText_text F X q.argv (q.world junk tty) _ htt
   rcases hor with rfl | ⟨he, _⟩
   · simp only [liftExc, ho]
     have hk' : refLoaderKind (q.argv.targetFormat.getD "json") = some k := by simpa [Request.argv] using hk
-    rw [handleTarget_ref wf X q.argv _ ht k hk', hload]
-    simp only [liftLoad, runWith]
+    obtain ⟨href, hmem⟩ := handleTarget_ref wf X q.argv _ ht k hk'
+    rw [href, hload]
+    simp only [liftLoad, caught_load wf.loadCatch X hl _ k _ c hmem hload, if_true, runWith]
   · rw [ht] at he; cases he
 
-/-- **Unreadable target file → usage error** (for every flag combination in which the target is
-    named by --target-file only and the spec is a literal). -/
+/-- **Unreadable target → usage error** (for every flag combination in which the target is named
+    once and the spec is a literal): a target file that is missing, a directory, not UTF-8 …, or a
+    standard input that cannot be decoded, whatever OSError / UnicodeError the read raises
+    (`ReadErrOk`). -/
 theorem c19_unreadable_target_usage_error (F : Facts) (hwf : WF F = true) (X : Ext T S R) (hr : ReprOk X)
-    (a : Argv) (w : World)
+    (a : Argv) (w : World) (hrd : ReadErrOk X w)
     (hfmt : (a.specFormat == none || a.specFormat == some "python") = true)
     (st : String) (hst : refSpecText X a = some st) (s : S) (hspec : refSpecOf X st = .ok s)
     (hun : refTargetText X a w = .unreadable) :
-    cliMain F X a w = .usage .targetFileUnreadable := by
+    ∃ u, cliMain F X a w = .usage u := by
   have wf := WF_parts hwf
+  obtain ⟨u, hu⟩ := getTargetText_unreadable wf X a w hrd hun
+  refine ⟨u, ?_⟩
   unfold cliMain
   rw [getSpec_ref wf X hr a hfmt st hst, hspec]
-  simp only [liftExc, getTargetText_unreadable X a w hun]
+  simp only [liftExc, hu]
 
 /-- **Checker theorem** — the form in which the property is also evaluated on the
     implementation's observation by the correspondence driver: for ALL flags, worlds and
     externals the model's outcome is what the reference expects wherever the property speaks. -/
 theorem c19_model_checks (F : Facts) (hwf : WF F = true) (X : Ext T S R) (hr : ReprOk X)
-    (a : Argv) (w : World) :
+    (hl : LoadErrOk F X) (a : Argv) (w : World) (hrd : ReadErrOk X w) :
     checkC19 X a w false (observe (cliMain F X a w)) = true := by
   have wf := WF_parts hwf
   unfold checkC19 observe
@@ -186,7 +207,8 @@ theorem c19_model_checks (F : Facts) (hwf : WF F = true) (X : Ext T S R) (hr : R
       | unspecified => simp
       | unreadable =>
         simp only
-        rw [c19_unreadable_target_usage_error F hwf X hr a w hfmt st hst s hsp htt]
+        obtain ⟨u, hu⟩ := c19_unreadable_target_usage_error F hwf X hr a w hrd hfmt st hst s hsp htt
+        rw [hu]
       | text tt =>
         simp only
         by_cases hte : tt.isEmpty = true
@@ -197,19 +219,21 @@ theorem c19_model_checks (F : Facts) (hwf : WF F = true) (X : Ext T S R) (hr : R
           | none => simp
           | some k =>
             simp only
-            obtain ⟨o, ho, hor⟩ := getTargetText_text X a w tt htt
-            have ho' : getTargetText X a w = .ok (some tt) := by
+            obtain ⟨o, ho, hor⟩ := getTargetText_text F X a w tt htt
+            have ho' : getTargetText F X a w = .ok (some tt) := by
               rcases hor with rfl | ⟨he, _⟩
               · exact ho
               · rw [hte'] at he; cases he
-            have hmain : cliMain F X a w = runWith F X a s (liftLoad (X.load k tt)) := by
+            obtain ⟨href, hmem⟩ := handleTarget_ref wf X a tt hte' k hk
+            have hmain : cliMain F X a w
+                = runWith F X a s (liftLoad X (catchOf F (a.targetFormat.getD "json")) (X.load k tt)) := by
               unfold cliMain
               rw [hgs, hsp]
               simp only [liftExc, ho']
-              rw [handleTarget_ref wf X a tt hte' k hk]
+              rw [href]
             rw [hmain]
-            cases hl : X.load k tt with
-            | error c => simp [liftLoad, runWith]
+            cases hld : X.load k tt with
+            | error c => simp [liftLoad, runWith, caught_load wf.loadCatch X hl _ k tt c hmem hld]
             | ok t =>
               simp only [liftLoad, runWith]
               cases hg : X.glom t s with
@@ -241,7 +265,13 @@ private def toyX : Ext String String String :=
     dumps := fun r _ => .ok r
     isScalar := fun _ => true
     str := fun r => r
-    readFile := fun p => if p == "/tmp/t.json" then some "{\"a\": 1}" else if p == "/tmp/s.glom" then some "'a'" else none }
+    readFile := fun p => if p == "/tmp/t.json" then some "{\"a\": 1}" else if p == "/tmp/s.glom" then some "'a'" else none
+    readErr := fun p => if p == "/tmp/latin1.json" then "UnicodeDecodeError" else "FileNotFoundError"
+    mro := fun c =>
+      if c == "JSONDecodeError" then ["JSONDecodeError", "ValueError", "Exception", "BaseException"]
+      else if c == "UnicodeDecodeError" then ["UnicodeDecodeError", "UnicodeError", "ValueError", "Exception", "BaseException"]
+      else if c == "FileNotFoundError" then ["FileNotFoundError", "OSError", "Exception", "BaseException"]
+      else [c, "BaseException"] }
 
 private def req (sv : SpecVia) (tv : TargetVia) : Request :=
   ⟨"'a'", "{\"a\": 1}", sv, tv, none, none, false⟩
@@ -256,27 +286,67 @@ example : refLoaderKind ((req .argv .argv).targetFormat.getD "json") = some "jso
 example : cliMain genFacts toyX (req .argv .argv).argv ((req .argv .argv).world "junk" true) = .exit 0 "1\n" ∧
     cliMain genFacts toyX (req (.file "/tmp/s.glom") .piped).argv ((req (.file "/tmp/s.glom") .piped).world "" true) = .exit 0 "1\n" ∧
     cliMain genFacts toyX (req .argv .dashArg).argv ((req .argv .dashArg).world "" true) = .exit 0 "1\n" ∧
-    cliMain genFacts toyX (req (.file "/tmp/s.glom") (.file "/tmp/t.json")).argv ⟨"junk", false⟩ = .exit 0 "1\n" := by
+    cliMain genFacts toyX (req (.file "/tmp/s.glom") (.file "/tmp/t.json")).argv ⟨"junk", false, none⟩ = .exit 0 "1\n" := by
   decide +kernel
 -- without `targetText ≠ "-"`: a positional `-` means standard input, not the text "-"
-example : cliMain genFacts toyX ⟨["'a'", "-"], none, none, none, none, none, false⟩ ⟨"{\"a\": 1}", true⟩ = .exit 0 "1\n" := by
+example : cliMain genFacts toyX ⟨["'a'", "-"], none, none, none, none, none, false⟩ ⟨"{\"a\": 1}", true, none⟩ = .exit 0 "1\n" := by
   decide +kernel
 -- without non-empty target text: an empty target text is replaced by `{}` (no loader is called)
-example : cliMain genFacts toyX ⟨["'a'", ""], none, none, none, none, none, false⟩ ⟨"", true⟩
+example : cliMain genFacts toyX ⟨["'a'", ""], none, none, none, none, none, false⟩ ⟨"", true, none⟩
     = .exit 1 "PathAccessError: could not access\n" := by decide +kernel
 -- GlomError / malformed target / unreadable file / malformed spec
-example : cliMain genFacts toyX ⟨["zz", "{\"a\": 1}"], none, none, none, none, none, false⟩ ⟨"", true⟩
+example : cliMain genFacts toyX ⟨["zz", "{\"a\": 1}"], none, none, none, none, none, false⟩ ⟨"", true, none⟩
       = .exit 1 "PathAccessError: could not access\n" ∧
-    cliMain genFacts toyX ⟨["a", "{\"a\":"], none, none, none, none, none, false⟩ ⟨"", true⟩
+    cliMain genFacts toyX ⟨["a", "{\"a\":"], none, none, none, none, none, false⟩ ⟨"", true, none⟩
       = .usage (.loadError "JSONDecodeError") ∧
-    cliMain genFacts toyX ⟨["a"], some "/nonexistent", none, none, none, none, false⟩ ⟨"", true⟩
+    cliMain genFacts toyX ⟨["a"], some "/nonexistent", none, none, none, none, false⟩ ⟨"", true, none⟩
       = .usage .targetFileUnreadable ∧
-    cliMain genFacts toyX ⟨["{", "{\"a\": 1}"], none, none, none, none, none, false⟩ ⟨"", true⟩
+    -- a target file / a standard input that is not UTF-8
+    cliMain genFacts toyX ⟨["a"], some "/tmp/latin1.json", none, none, none, none, false⟩ ⟨"", true, none⟩
+      = .usage .targetFileUnreadable ∧
+    cliMain genFacts toyX ⟨["a", "-"], none, none, none, none, none, false⟩ ⟨"", true, some "UnicodeDecodeError"⟩
+      = .usage .stdinUnreadable ∧
+    cliMain genFacts toyX ⟨["a"], none, none, none, none, none, false⟩ ⟨"", false, some "UnicodeDecodeError"⟩
+      = .usage .stdinUnreadable ∧
+    cliMain genFacts toyX ⟨["{", "{\"a\": 1}"], none, none, none, none, none, false⟩ ⟨"", true, none⟩
       = .exc "SyntaxError" := by decide +kernel
+-- `LoadErrOk` / `ReadErrOk` hold for the toy externals …
+example : LoadErrOk genFacts toyX :=
+  loadErrOk_of_exception c19_handlers_name_exception (fun k t c h => by
+    have : c = "JSONDecodeError" := by
+      simp only [toyX] at h; split at h <;> simp_all
+    subst this; decide +kernel)
+-- … and are needed.  Without `LoadErrOk`: a loader that raised a class outside `Exception`
+-- would leave `main` with it (`except Exception` does not catch a bare BaseException)
+example : cliMain genFacts { toyX with load := fun _ _ => .error "KeyboardInterrupt" }
+      ⟨["a", "{\"a\":"], none, none, none, none, none, false⟩ ⟨"", true, none⟩
+    = .exc "KeyboardInterrupt" := by decide +kernel
+-- without `catchWF`: the handler narrowed to the loader's "parse error" class lets the other
+-- classes the same loader raises on text escape (PyYAML's timestamp constructor: ValueError)
+example : cliMain { genFacts with loadCatch := [("json", ["JSONDecodeError"])] }
+        { toyX with load := fun _ _ => .error "RecursionError" }
+        ⟨["a", "[[[["], none, none, none, none, none, false⟩ ⟨"", true, none⟩
+      = .exc "RecursionError" ∧
+    WF { genFacts with loadCatch := [("json", ["ValueError"]), ("yaml", ["YAMLError"]), ("yml", ["YAMLError"]),
+        ("toml", ["TOMLDecodeError"]), ("python", ["ValueError", "SyntaxError"])] } = false ∧
+    -- … while a handler that names a class above every probed class is accepted
+    catchWF genFacts.targetLoaders [("json", ["ValueError", "RuntimeError"]), ("yaml", ["Exception"]),
+        ("yml", ["BaseException", "Exception"]), ("toml", ["ValueError", "RecursionError"]),
+        ("python", ["ValueError", "SyntaxError", "TypeError", "MemoryError", "RecursionError"])]
+      genFacts.loaderRaises = true := by decide +kernel
+-- without `ReadErrOk` / `readCatchWF`: `except OSError` alone lets the UnicodeDecodeError of a
+-- file that is not UTF-8 leave `main` (glom before dbce23c)
+example : cliMain { genFacts with targetReadCatch := ["OSError"] } toyX
+      ⟨["a"], some "/tmp/latin1.json", none, none, none, none, false⟩ ⟨"", true, none⟩
+    = .exc "UnicodeDecodeError" ∧
+    cliMain { genFacts with stdinReadCatch := [] } toyX
+      ⟨["a", "-"], none, none, none, none, none, false⟩ ⟨"", true, some "UnicodeDecodeError"⟩
+    = .exc "UnicodeDecodeError" ∧
+    WF { genFacts with targetReadCatch := ["OSError"] } = false := by decide +kernel
 -- `ReprOk` holds for the toy externals on a bare word
 example : toyX.parse "python-literal" (toyX.repr "a") = .ok (toyX.strSpec "a") := by decide +kernel
 -- `c19_model_no_exec` without its hypothesis: under --spec-format python-full the outcome DOES depend on the evaluator
-example : cliMain genFacts toyX ⟨["a", "{\"a\": 1}"], none, none, none, some "python-full", none, false⟩ ⟨"", true⟩
+example : cliMain genFacts toyX ⟨["a", "{\"a\": 1}"], none, none, none, some "python-full", none, false⟩ ⟨"", true, none⟩
     = .exc "NoOracle" := by decide +kernel
 
 end Glom.Props.C19
